@@ -1,14 +1,15 @@
-SPECIFICATION TraceSpec
+SPECIFICATION Spec
 CONSTANTS
-  NK = 16
-  MaxSeq = 100000
-  NL = 7
-  MemCap = 1000000
-  FileCap = 1000000
-  MaxSnaps = 100
-  MaxPins = 100
+  NK = 3
+  MaxSeq = 4
+  NL = 3
+  MemCap = 2
+  FileCap = 4
+  MaxSnaps = 0
+  MaxPins = 0
+  MaxFiles = 9
   KeepExtra = FALSE
-  Ops = {0, 1}
+  Ops = {1}
   Bug_RangeMin = FALSE
   Bug_NoBoundary = FALSE
   Bug_DropTombNoBase = FALSE
@@ -17,5 +18,8 @@ CONSTANTS
   Bug_DeletePending = FALSE
   Bug_DeletePinned = FALSE
   Bug_ImmDropEarly = FALSE
-POSTCONDITION TraceAccepted
+INVARIANTS ReadCorrect WellFormed NothingLiveDeleted SeqSane
+PROPERTIES Invisible NoLeakAfterPass
+CONSTRAINT MCBound
+VIEW MCView
 CHECK_DEADLOCK FALSE
